@@ -835,7 +835,9 @@ def _finalize_parse_info(text, nodes, pos, fullparse):
 
     for node in visit(nodes):
         pos_info = node._metadata.position_info
-        if pos_info:
+        # Objects that come from a nested parse (started by inline Python) have
+        # been converted already.
+        if pos_info and not isinstance(pos_info, _PositionInfo):
             start, end = pos_info
             node._metadata.position_info = _PositionInfo(
                 start=position(start),
